@@ -6,6 +6,7 @@
 (*   iter   = items of read(): value kind | "type" | "syntax"              *)
 (*   biter  = items of the iterators given a budget the "BF"/"BI" kinds    *)
 (*            exceed: value kind | "type" | "syntax" | "budget"            *)
+(*   titer  = items of the iterators reading pairs of integers             *)
 (*   single = value kind | "null" | "err"        (from_str / from_reader)  *)
 (* Each field may be a list of observations (one per entry point variant): *)
 (* all of them must equal the specification's answer.                      *)
@@ -17,13 +18,14 @@ Check(r) ==
   IF \E j \in 1..Len(r.batch) : r.batch[j] # Batch(r.kinds) THEN "batch"
   ELSE IF \E j \in 1..Len(r.iter) : ~IterAdmissible(r.iter[j], r.kinds) THEN "iter"
   ELSE IF \E j \in 1..Len(r.biter) : ~IterAdmissibleB(r.biter[j], r.kinds) THEN "iter-with-budget"
+  ELSE IF \E j \in 1..Len(r.titer) : ~IterAdmissible(r.titer[j], TupleView(r.kinds)) THEN "iter-of-pairs"
   ELSE IF \E j \in 1..Len(r.single) : r.single[j] # Single(r.kinds) THEN "single"
   ELSE "ok"
 Init == l = 1 /\ TLCSet(1, 0)
 Next == /\ l <= Len(Recs)
         /\ LET r == Recs[l]  c == Check(r) IN
              IF c = "ok" THEN TRUE
-             ELSE /\ PrintT(<<"MISMATCH", r.id, ToJson([verdict |-> c, kinds |-> r.kinds, batch |-> r.batch, iter |-> r.iter, biter |-> r.biter, single |-> r.single,
+             ELSE /\ PrintT(<<"MISMATCH", r.id, ToJson([verdict |-> c, kinds |-> r.kinds, batch |-> r.batch, iter |-> r.iter, biter |-> r.biter, titer |-> r.titer, single |-> r.single,
                                                         req_batch |-> Batch(r.kinds), req_iter |-> Iter(r.kinds), req_single |-> Single(r.kinds)])>>)
                   /\ TLCSet(1, TLCGet(1) + 1)
         /\ l' = l + 1
